@@ -2,6 +2,7 @@ package props
 
 import (
 	"fmt"
+	"os"
 	"runtime"
 
 	"verif/internal/mem"
@@ -34,6 +35,21 @@ func (w *diffWorker) flush() {
 	}
 	rigPool.Put(w.rig)
 	w.rig = nil
+}
+
+// altFirst (child process, VERIF_ALT_FIRST=1): the alternative interpreter is the first of the two
+// packages to be used in the process and steps first in every pair.
+var altFirst = os.Getenv("VERIF_ALT_FIRST") != ""
+
+func (w *diffWorker) stepBoth(mp, ma *mem.Image) (rp, ra stepRes) {
+	if altFirst {
+		ra = w.rig.stepAlt(ma)
+		rp = w.rig.stepPrim(mp)
+		return
+	}
+	rp = w.rig.stepPrim(mp)
+	ra = w.rig.stepAlt(ma)
+	return
 }
 
 func modeCell(s ref.State) string {
@@ -110,8 +126,7 @@ func (w *diffWorker) single(s0 ref.State, base *mem.Image, stale bool, g *vf.Rng
 	w.rig.loadPrim(s0, stale, g)
 	w.rig.loadAltFromPrim()
 	op := base.Peek(uint32(s0.K)<<16 | uint32(s0.PC))
-	rp := w.rig.stepPrim(mp)
-	ra := w.rig.stepAlt(ma)
+	rp, ra := w.stepBoth(mp, ma)
 	w.r.Eval(1)
 	ok := w.compareSides(op, s0, rp, ra, mp, ma, where, func() interface{} {
 		return describeCase(s0, stale, base, ref.Info{Op: op, M: ref.Table[op].M, Mode: ref.Table[op].Mode})
@@ -140,8 +155,7 @@ func (w *diffWorker) program(s0 ref.State, base *mem.Image, stale bool, g *vf.Rn
 			w.rig.prim.Interrupt, w.rig.alt.Interrupt = 2, 2 // NMI
 			w.cells["interrupt:nmi-requested"]++
 		}
-		rp := w.rig.stepPrim(mp)
-		ra := w.rig.stepAlt(ma)
+		rp, ra := w.stepBoth(mp, ma)
 		w.r.Eval(1)
 		if !w.compareSides(op, pre, rp, ra, mp, ma, fmt.Sprintf("program step %d", step), func() interface{} {
 			return map[string]interface{}{"program_start": s0.String(), "image_seed": base.Seed, "step": step, "pre_step_state": pre.String(), "instruction": opName(op), "overlay_bytes": len(base.Ov)}
@@ -229,6 +243,8 @@ func C02(r *vf.Run) {
 			r.AddExtra("program_steps", local)
 		})
 	}
+	// the same lockstep in a fresh process in which cpualt is used (and steps) first
+	runChild(r, "cpualt-first", "VERIF_ALT_FIRST=1")
 	if r.OnlyPhase == "" {
 		for op := 0; op < 256; op++ {
 			r.Require(fmt.Sprintf("op%02x:e1:m1:x1:d0:dl0", op))
@@ -348,6 +364,13 @@ func C08(r *vf.Run) {
 		w.rig.loadPrim(s, g.Bool(), g)
 		w.rig.loadAltFromPrim()
 		op := img.Peek(uint32(s.K)<<16 | uint32(s.PC))
+		pending := false
+		if g.Intn(16) == 0 { // an interrupt request pending on entry: the handler's pushes and vector fetch are bus accesses too
+			pending = true
+			kind := byte(2 + g.Intn(2))
+			w.rig.prim.Interrupt, w.rig.alt.Interrupt = kind, kind
+			w.cells["interrupt-pending"]++
+		}
 		rp := w.rig.stepPrim(mp)
 		ra := w.rig.stepAlt(ma)
 		det := func() interface{} {
@@ -365,7 +388,7 @@ func C08(r *vf.Run) {
 			w.cells["touched:$ffffff"]++
 		}
 		// native mode: the wrapped address must be the model's (a store landing anywhere else is a violation)
-		if !s.E {
+		if !s.E && !pending { // (the model does not cover interrupt entry)
 			mr := img.Clone()
 			sr := s
 			inf := ref.Step(&sr, mem.RefMem{M: mr})
